@@ -90,6 +90,25 @@ def extract_family(fam, cfg):
                     e = extract.match_brace(src, b)
                     text = src[ms[0].start():e]
                     rep["source"] = f"{it['file']}:{extract.line_of(src, ms[0].start())}-{extract.line_of(src, e)}"
+                elif kind == "file_minus":
+                    # the whole file minus a closed list of named regions (each must match exactly once)
+                    text = src
+                    dropped = []
+                    for dk, dpat in it["drop"]:
+                        ms = list(re.finditer(dpat, text, re.M))
+                        if len(ms) != 1:
+                            raise extract.AnchorLost(f"drop region {dpat!r} matches {len(ms)} times")
+                        m0 = ms[0]
+                        if dk == "line":
+                            a, b = m0.start(), m0.end()
+                        else:
+                            bb = text.index("{", m0.end() - 1)
+                            b = extract.match_brace(text, bb)
+                            a = m0.start()
+                        dropped.append({"region": dpat, "lines": text[a:b].count("\n") + 1})
+                        text = text[:a] + text[b:]
+                    rep["dropped_regions"] = dropped
+                    rep["source"] = f"{it['file']} (whole file, {src.count(chr(10))} lines)"
                 elif kind == "lines":
                     # one or more whole statements/items found by a regex (e.g. a const)
                     ms = list(re.finditer(it["regex"], src, re.M))
